@@ -22,6 +22,17 @@ def ShardAccounts (sp : Bool) (cell_slice : Frag) : Rd.R := do
 -- END ShardAccounts
 
 -- BEGIN ShardStateUnsplit
+def ShardStateUnsplit_group (c12 : Cell) (sl_ref : Frag) (t14 t15 t16 t17 t18 t19 : Val) : Option (Val × Val × Val × Val × Val × Val × Frag) :=
+  (if (!(Rd.special c12)) then do
+          let (t20, sl_ref) ← Rd.loadUint 64 sl_ref
+          let (t21, sl_ref) ← Rd.loadUint 64 sl_ref
+          let (t22, sl_ref) ← SrcTx.CurrencyCollection (Rd.special c12) sl_ref
+          let (t23, sl_ref) ← SrcTx.CurrencyCollection (Rd.special c12) sl_ref
+          let (t24, sl_ref) ← Rd.loadDictRaw 256 sl_ref
+          let (t25, sl_ref) ← Rd.optional sl_ref (Src.BlkMasterInfo (Rd.special c12))
+          pure (t20, t21, t22, t23, t24, t25, sl_ref)
+        else pure (t14, t15, t16, t17, t18, t19, sl_ref))
+
 def ShardStateUnsplit (sp : Bool) (cell_slice : Frag) : Rd.R := do
   if sp then do
     pure (Val.unit, cell_slice)
@@ -47,15 +58,7 @@ def ShardStateUnsplit (sp : Bool) (cell_slice : Frag) : Rd.R := do
     let t17 := Val.unit
     let t18 := Val.unit
     let t19 := Val.unit
-    let (t26, t27, t28, t29, t30, t31, sl_ref) ← (if (!(Rd.special c12)) then do
-          let (t20, sl_ref) ← Rd.loadUint 64 sl_ref
-          let (t21, sl_ref) ← Rd.loadUint 64 sl_ref
-          let (t22, sl_ref) ← SrcTx.CurrencyCollection (Rd.special c12) sl_ref
-          let (t23, sl_ref) ← SrcTx.CurrencyCollection (Rd.special c12) sl_ref
-          let (t24, sl_ref) ← Rd.loadDictRaw 256 sl_ref
-          let (t25, sl_ref) ← Rd.optional sl_ref (Src.BlkMasterInfo (Rd.special c12))
-          pure (t20, t21, t22, t23, t24, t25, sl_ref)
-        else pure (t14, t15, t16, t17, t18, t19, sl_ref))
+    let (t26, t27, t28, t29, t30, t31, sl_ref) ← ShardStateUnsplit_group c12 sl_ref t14 t15 t16 t17 t18 t19
     let (t32, cell_slice) ← Rd.optional cell_slice (Rd.viaRef SrcBlk.McStateExtra)
     pure ((Rd.obj "ShardStateUnsplit" [("global_id", t2), ("shard_id", t3), ("seq_no", t4), ("vert_seq_no", t5), ("gen_utime", t6), ("gen_lt", t7), ("min_ref_mc_seqno", t8), ("out_msg_queue_info", t9), ("before_split", t10), ("accounts", t11), ("overload_history", t26), ("underload_history", t27), ("total_balance", t28), ("total_validator_fees", t29), ("libraries", t30), ("master_ref", t31), ("custom", t32)]), cell_slice)
 -- END ShardStateUnsplit
